@@ -230,6 +230,12 @@ class Interp:
             # an identifier pattern naming a unit variant / constant cannot be told from a binding here; upper-case initial = variant
             if nm[:1].isupper() and not nm.isupper():
                 return self._match_variant(nm, (), v, env, None)
+            if nm.isupper() or (nm.upper() == nm and "_" in nm):
+                # an all-capitals identifier in a pattern is a constant, never a binding
+                ct = sir.const_text({"k": "path", "segs": [nm], "s": nm})
+                if ct is None or is_unknown(v):
+                    return "maybe"
+                return "yes" if v == ct else "no"
             env[nm] = v
             return "yes"
         if k == "p_ref":
@@ -452,6 +458,8 @@ class Interp:
                 return [Out("val", n == "true", st)]
             if n[:1].isupper() and not n.isupper():
                 return [Out("val", ("E", n, ()), st)]
+            if n.upper() == n and sir.const_text(e) is not None:
+                return [Out("val", sir.const_text(e), st)]   # a text constant of the crate
             return [Out("val", UNK, st)]
         if segs[-1] == "None" and segs[-2] in ("Option", "option"):
             return [Out("val", NONE, st)]
